@@ -210,7 +210,9 @@ def tc_frame(m, rows):
 
 
 def frame_rows(df):
-    return [[[c, C.num(df.loc[i, c])] for c in df.columns] for i in df.index]
+    # positional: a label may occur twice (a reaction named like a surrogate flux is listed by both name getters)
+    cols = list(df.columns)
+    return [[[c, C.num(v)] for c, v in zip(cols, row)] for row in df.to_numpy().tolist()]
 
 
 def mkcoef(cj):
@@ -271,6 +273,17 @@ def run_query(m, q):
                 return {"ok": list(m.get_surrogate_reaction_names())}
             if w == "unused":
                 return {"ok": sorted(m.get_unused_parameters())}
+            if w.startswith("raw"):
+                # the default as_copy=True hands out a deep copy: wrecking it must not reach the model
+                d = getattr(m, "get_raw_" + {"rawvars": "variables", "rawpars": "parameters", "rawderived": "derived",
+                                             "rawrxns": "reactions", "rawreadouts": "readouts",
+                                             "rawsurs": "surrogates"}[w])()
+                keys = list(d)
+                for v in d.values():
+                    if hasattr(v, "args"):
+                        v.args = ["wrecked"]
+                d.clear()
+                return {"ok": keys}
             raise ValueError(q)
         if kind == "argnames":
             return {"ok": list(m.get_arg_names(**flags_kw(q[2])))}
@@ -290,7 +303,15 @@ def run_query(m, q):
         if kind == "rhstc":
             return {"ok": frame_rows(m.get_right_hand_side_time_course(m.get_args_time_course(tc_frame(m, q[2]))))}
         if kind == "eq":
-            return {"ok": bool(m == fresh_model(snapshot(m)))}
+            # a newly built model with the same content; units / sources (not part of the wire form) are carried over
+            f = fresh_model(snapshot(m))
+            for a in ("_variables", "_parameters", "_derived", "_readouts", "_reactions"):
+                for k_, v in getattr(m, a).items():
+                    w = getattr(f, a)[k_]
+                    for attr in ("unit", "source"):
+                        if hasattr(v, attr):
+                            setattr(w, attr, getattr(v, attr))
+            return {"ok": bool(m == f)}
         if kind == "stoichvar":
             d = m.get_stoichiometries_of_variable(q[2], cur_state(m, q[3]), F(q[4]))
             return {"ok": sorted([k, C.num(v)] for k, v in d.items())}
@@ -329,12 +350,21 @@ def canon_exc(e):
 def apply_mut(m, op):
     """apply one mutator op to the real model (raises what the model raises)"""
     k = op[0]
+    meta = {}
+    if op[-1] == "meta":
+        # unit= / source= keywords (no query of the property reads them; the branches are exercised)
+        import sympy
+
+        op = op[:-1]
+        meta = {"unit": sympy.Symbol("u")}
+        if k in ("update_parameter", "update_variable"):
+            meta["source"] = "somewhere"
     if k == "add_parameter":
         m.add_parameter(op[1], mkval(op[2]))
     elif k == "remove_parameter":
         m.remove_parameter(op[1])
     elif k == "update_parameter":
-        m.update_parameter(op[1], None if op[2] is None else mkval(op[2]))
+        m.update_parameter(op[1], None if op[2] is None else mkval(op[2]), **meta)
     elif k == "scale_parameter":
         m.scale_parameter(op[1], F(op[2]))
     elif k == "make_parameter_dynamic":
@@ -356,7 +386,7 @@ def apply_mut(m, op):
     elif k == "remove_variable":
         m.remove_variable(op[1], remove_stoichiometries=bool(op[2]))
     elif k == "update_variable":
-        m.update_variable(op[1], mkval(op[2]))
+        m.update_variable(op[1], mkval(op[2]), **meta)
     elif k == "make_variable_static":
         m.make_variable_static(op[1], None if op[2] is None else F(op[2]))
     elif k == "add_variables":
@@ -370,7 +400,8 @@ def apply_mut(m, op):
         m.add_derived(op[1], fn=fn_of(op[2]), args=list(op[2]["args"]))
     elif k == "update_derived":
         ar = len(op[3]) if op[3] is not None else 0
-        m.update_derived(op[1], None if op[2] is None else bare_fn(op[2], ar), args=None if op[3] is None else list(op[3]))
+        m.update_derived(op[1], None if op[2] is None else bare_fn(op[2], ar), args=None if op[3] is None else list(op[3]),
+                         **meta)
     elif k == "remove_derived":
         m.remove_derived(op[1])
     elif k == "add_reaction":
@@ -383,6 +414,7 @@ def apply_mut(m, op):
             None if op[2] is None else bare_fn(op[2], ar),
             args=None if op[3] is None else list(op[3]),
             stoichiometry=None if op[4] is None else mkst(op[4]),
+            **meta,
         )
     elif k == "remove_reaction":
         m.remove_reaction(op[1])
